@@ -657,7 +657,7 @@ def unlocked_writers(ctx, effect, owner_cls, lock):
             if q in W:
                 continue
             for s in ctx.cg.sites_in(f):
-                if effect in ctx.site_effects(s) or any(c in W for c in s.callees if s.how != "cha"):
+                if (effect in ctx.site_effects(s) and "OWN_HOLD" not in ctx.site_effects(s)) or any(c in W for c in s.callees if s.how != "cha"):
                     W.add(q)
                     changed = True
                     break
@@ -812,3 +812,101 @@ def iteration_paths(ctx, fn, loop, avoid=(), kinds=NORMAL_KINDS, cap=2000, with_
         for d, k, c in n.succ:
             if k in kinds:
                 stack.append((d, path + [(n, k, c)], seen | {n.id}))
+
+
+def only_return(ctx, fn):
+    """The value of the function's single `return` statement with local aliases expanded, or None."""
+    cfg = ctx.cfg(fn)
+    rets = [n for n in cfg.nodes if n.kind == "stmt" and isinstance(n.ast, ast.Return) and n.copy == "n"]
+    if len(rets) != 1 or rets[0].ast.value is None:
+        return None
+    v = rets[0].ast.value
+    return ctx.guards(fn).expand(v, rets[0]) if isinstance(v, ast.Name) else v
+
+
+# ---------------------------------------------- filtered collections (two forms)
+def collections_from(ctx, fn, is_source):
+    """Collections built from an iterable in `fn`, in either syntactic form:
+         X = [elt for v in SRC if c1 if c2]                    (comprehension; also list(...), set/generator)
+         X = []; for v in SRC: if c1: ... X.append(elt)        (loop)
+    is_source(iter_expr) selects the iterables of interest.  Returns dicts with
+      form, iter, var, conds (set of (form, pol) mentioning the loop variable, variable renamed to `_`),
+      elt (source text of the collected element, variable renamed to `_`), into (name bound to the collection), at."""
+    import re as _re
+
+    def ren(text, var):
+        return _re.sub(rf"\b{_re.escape(var)}\b", "_", text) if var else text
+
+    out = []
+    parents = ctx.parents(fn)
+    for n in iter_own(fn.node):
+        if isinstance(n, (ast.ListComp, ast.GeneratorExp, ast.SetComp)) and len(n.generators) == 1 and is_source(n.generators[0].iter):
+            g = n.generators[0]
+            var = g.target.id if isinstance(g.target, ast.Name) else None
+            conds = set()
+            for c in g.ifs:
+                for f, p in both_orders([norm(ctx, fn, c, None)]):
+                    conds.add((ren(f, var), p))
+            cur, into = n, None
+            while cur is not None and not isinstance(cur, ast.stmt):
+                cur = parents.get(id(cur))
+            if isinstance(cur, ast.Assign) and isinstance(cur.targets[0], ast.Name):
+                into = cur.targets[0].id
+            out.append({"form": "comprehension", "iter": g.iter, "var": var, "conds": conds, "elt": ren(unparse(n.elt), var), "into": into, "at": n})
+    cfg = ctx.cfg(fn)
+    for lp in [n for n in iter_own(fn.node) if isinstance(n, ast.For) and is_source(n.iter)]:
+        var = lp.target.id if isinstance(lp.target, ast.Name) else None
+        for cn in cfg.nodes:
+            if cn.stmt is None or not any(l is lp for l in ctx.enclosing(fn, cn.stmt, (ast.For,))):
+                continue
+            for c in cfg.calls_at(cn):
+                if isinstance(c.func, ast.Attribute) and c.func.attr in ("append", "add") and isinstance(c.func.value, ast.Name) and len(c.args) == 1:
+                    conds = {(ren(f, var), p) for f, p in guard_forms(ctx, fn, cn) if var and _re.search(rf"\b{_re.escape(var)}\b", f)}
+                    out.append({"form": "loop", "iter": lp.iter, "var": var, "conds": conds, "elt": ren(unparse(c.args[0]), var), "into": c.func.value.id, "at": cn.stmt})
+    return out
+
+
+def inline_locals(ctx, fn, expr, at_node, depth=3):
+    """Copy of `expr` in which every local that has a single reaching definition at `at_node` (whose operands are
+    unchanged since - the alias conditions of Guards.expand) is replaced by that definition, transitively."""
+    import copy
+
+    if expr is None or at_node is None:
+        return expr
+    g = ctx.guards(fn)
+
+    class T(ast.NodeTransformer):
+        def __init__(self, d):
+            self.d = d
+
+        def visit_Name(self, n):
+            if not isinstance(n.ctx, ast.Load) or self.d <= 0:
+                return n
+            e = g.expand(n, at_node, depth=1)
+            if e is n or isinstance(e, ast.Name) and e.id == n.id:
+                return n
+            return T(self.d - 1).visit(copy.deepcopy(e))
+
+    return T(depth).visit(copy.deepcopy(expr))
+
+
+def property_setter_mismatches(ctx, classes):
+    """T9 over accessor pairs: a property whose getter is `return self._a` and whose setter's only attribute store
+    is `self._b = <param>` must have a == b.  Returns (n_pairs, [(cls, name, getter_attr, setter_attr, setter_fn)])."""
+    n, bad = 0, []
+    for c in classes:
+        for name, st in c.setters.items():
+            g = c.methods.get(name)
+            if g is None or g.kind != "property":
+                continue
+            rx = _single_return(g)
+            if not (isinstance(rx, ast.Attribute) and isinstance(rx.value, ast.Name) and rx.value.id == "self"):
+                continue
+            stores = [x for x in iter_own(st.node) if isinstance(x, ast.Assign) for t in x.targets if isinstance(t, ast.Attribute) and isinstance(t.value, ast.Name) and t.value.id == "self"]
+            if len(stores) != 1 or not isinstance(stores[0].value, ast.Name) or stores[0].value.id not in st.params:
+                continue
+            n += 1
+            sa = stores[0].targets[0].attr
+            if sa != rx.attr:
+                bad.append((c, name, rx.attr, sa, st))
+    return n, bad
